@@ -256,35 +256,27 @@ def run_units(unit_ids, repo, scratch, tier, pid):
             if pr['timeout'] or pr['nfailed'] is None:
                 reasons.append('%s: CBMC %s' % (short, ('timeout (%ss)' % htimeout) if pr['timeout'] else 'stopped (memory cap / solver crash): ' + ' '.join(pr['text'].split())[:80]))
                 continue
-            # a definite failure: re-run alone in regular format for check-level details
-            r2 = run_kani(os.path.join(work, 'guard'), [h], target, htimeout * 2 + 300, jobs=None, harness_timeout=htimeout)
-            cmds.append(r2['cmd'])
-            blocks = re.split(r'^Checking harness \S+?\.\.\.$', r2['out'], flags=re.M)[1:]
-            got = False
-            for blk in blocks:
-                pz = parse_regular(blk)
-                real = [c for c in pz['fails'] if c not in pz['unwind'] and c not in pz['unsupported']]
-                if pz['unwind'] and not real:
-                    reasons.append('%s: unwinding bound too small' % short)
-                    got = True
-                elif pz['unsupported'] and not real:
-                    reasons.append('%s: unsupported construct reachable: %s' % (short, pz['unsupported'][0][3][:100]))
-                    got = True
-                elif real:
-                    for c in real[:3]:
-                        res['failures'].append(dict(harness=short, full=h, description=c[3], location=c[4], check=c[1]))
-                    got = True
-            if not got:
-                reasons.append('%s: failed in the parallel run but no failed check on re-run (flaky/timeout)' % short)
+            # a definite failure (CBMC reported failed checks): the terse output already names them
+            fcs = pr.get('failed_checks') or []
+            unw = [f for f in fcs if 'unwinding assertion' in f[0] or 'recursion unwinding' in f[0]]
+            uns = [f for f in fcs if 'unsupported' in f[0].lower() or 'is not currently supported' in f[0]]
+            real = [f for f in fcs if f not in unw and f not in uns]
+            if unw and not real:
+                reasons.append('%s: unwinding bound too small' % short)
+            elif uns and not real:
+                reasons.append('%s: unsupported construct reachable: %s' % (short, uns[0][0][:100]))
+            elif real:
+                for f in real[:3]:
+                    res['failures'].append(dict(harness=short, full=h, description=f[0], location=f[1].strip(), check=''))
+            else:
+                reasons.append('%s: verdict FAILED without a named failed check' % short)
         if res['failures']:
             res['status'] = 'refuted'
-            seen = set()
-            for f in res['failures']:
-                if f['harness'] in seen:
-                    f.update(dict(values=None, trace='see first failure of this harness'))
-                    continue
-                seen.add(f['harness'])
-                f.update(playback(os.path.join(work, 'guard'), f['full'], target))
+            # concrete playback (one more CBMC run) only for the first failing harness of the unit
+            first = res['failures'][0]
+            first.update(playback(os.path.join(work, 'guard'), first['full'], target))
+            for f in res['failures'][1:]:
+                f.update(dict(values=None, trace='counterexample values extracted for the first failing harness of this unit only (%s)' % first['harness']))
         elif reasons:
             res['status'] = 'undecided'
             res['reason'] = '; '.join(reasons)
